@@ -271,7 +271,8 @@ def run(ctx):
                 'x 9 layouts, with a block of peeling rules (X + 0 -> X, not X -> X, [[X]] -> X, f(1)(2) -> f, a.b -> a, if-unwrap) under '
                 'loop 2/3 on a program with locations of different depth. V: every subn() call validated by TLC against '
                 'TemplateTrace.tla, one event per substitution (incl. Loop.Complete: a location is re-substituted until its loop '
-                'budget is used up or it stops matching). '
+                'budget is used up or it stops matching; Nested.Exhaustive: with nested=True and a template that brings no matchable '
+                'node of its own nothing that matches may be left, for loop in {0, 2, 3, True}). '
                 'distinct = distinct (pattern, template, nested, count, loop, on, back, callbacks, static mode, outcome) '
                 'tuples with at least one substitution performed')
     ctx.assumptions += ['projection (harness/proj.py) trusted; match sets and captures are taken from pfst search/match '
